@@ -60,6 +60,8 @@ class ItemSpec:
         self.rewrites = []
         self.subs = []
         self.abstract_loops = {}
+        self.abstract_args = []
+        self.closures = {}
         self.strip_generics = False
 
     def loop(self, n):
@@ -220,6 +222,25 @@ def parse_template(path, specs_dir, seen=None):
         elif d.startswith('sub '):
             a, b = d[4:].split(' => ', 1)
             cur.subs.append((a.strip(), b.strip()))
+        elif d.startswith('closure '):
+            mo = re.match(r'^closure\s+(\d+)\s+(returns|ensures)\s+(.*)$', d)
+            if not mo:
+                raise UnitError('%s:%d: bad closure directive' % (path, i + 1))
+            c = cur.closures.setdefault(int(mo.group(1)), {'returns': None, 'ensures': []})
+            if mo.group(2) == 'returns':
+                c['returns'] = mo.group(3).strip()
+            else:
+                m2 = re.match(r'^([\w\-\.]+):\s*(.*)$', mo.group(3))
+                if not m2:
+                    raise UnitError('%s:%d: closure ensures needs a label' % (path, i + 1))
+                cl = [m2.group(1), m2.group(2)]
+                c['ensures'].append(cl)
+                last_clause = cl
+        elif d.startswith('abstract_arg '):
+            mo = re.match(r'^abstract_arg\s+([\w:]+)\s+(\d+)\s*::\s*(.*)$', d)
+            if not mo:
+                raise UnitError('%s:%d: bad abstract_arg' % (path, i + 1))
+            cur.abstract_args.append((mo.group(1), int(mo.group(2)), mo.group(3)))
         elif d.startswith('abstract_loop '):
             mo = re.match(r'^abstract_loop\s+(\d+)\s*::\s*(.*)$', d)
             cl = [int(mo.group(1)), mo.group(2)]
@@ -370,6 +391,16 @@ def _inject_body(body, spec):
             raise UnitError('lost anchor: %s loop %d' % (spec.id, n))
         L = loops[n]
         replaced.append((L['start'], L['end'] + 1, '/*@A1 loop %d abstracted@*/ %s' % (n, call)))
+    if spec.closures:
+        mb, _ = mask(body)
+        cl_pos = [mo for mo in re.finditer(r'(?<=[\(,=])\s*(\|[^|\n]*\|)\s*(?=\{)', mb)]
+        for n, c in spec.closures.items():
+            if n >= len(cl_pos):
+                raise UnitError('lost anchor: %s closure %d (function has %d block closures)' % (spec.id, n, len(cl_pos)))
+            ann = ' -> (verif_r: %s)\n            ensures\n' % (c['returns'] or '_')
+            for label, expr in c['ensures']:
+                ann += '                /*@C:%s::closure%d.%s@*/ %s,\n' % (spec.id, n, label, expr)
+            inserts.append((cl_pos[n].end(1), 0, ann + '            '))
     order = 1
     for anchor, text in spec.ghosts:
         pos = _find_anchor(body, loops, anchor)
@@ -386,6 +417,36 @@ def _inject_body(body, spec):
         else:
             body = body[:pos] + t + body[e:]
     return body, len(loops)
+
+
+def _abstract_arg(text, callee, idx, repl, sid):
+    """Rule A2: the idx-th argument of the (single) call `callee(...)` is replaced by `repl`."""
+    m, _ = mask(text)
+    hits = [mo for mo in re.finditer(r'(?<![\w:])' + re.escape(callee) + r'\s*\(', m)]
+    if len(hits) != 1:
+        raise UnitError('lost anchor: %d calls of %s in %s' % (len(hits), callee, sid))
+    op = hits[0].end() - 1
+    cl = match_close(m, op)
+    args = []
+    depth = 0
+    start = op + 1
+    k = op + 1
+    while k < cl:
+        ch = m[k]
+        if ch in '([{':
+            depth += 1
+        elif ch in ')]}':
+            depth -= 1
+        elif ch == ',' and depth == 0:
+            args.append((start, k))
+            start = k + 1
+        k += 1
+    if m[start:cl].strip():
+        args.append((start, cl))
+    if idx >= len(args):
+        raise UnitError('lost anchor: call of %s in %s has %d arguments' % (callee, sid, len(args)))
+    a, b = args[idx]
+    return text[:a] + '\n/*@A2 argument abstracted@*/ ' + repl + text[b:]
 
 
 def process_item(repo, spec, mutations=None, force_false=False):
@@ -415,6 +476,9 @@ def process_item(repo, spec, mutations=None, force_false=False):
             raise UnitError('lost anchor: per-item rewrite %r did not match in %s' % (a, spec.id))
         text = text2
         log['per-item:' + a] = c
+    for callee, idx, repl in spec.abstract_args:
+        text = _abstract_arg(text, callee, idx, repl, spec.id)
+        log['A2:%s#%d' % (callee, idx)] = 1
     meta = {'id': spec.id, 'file': spec.path, 'selector': spec.selector, 'kind': item.kind,
             'line_start': item.line, 'line_end': item.line + nlines - 1, 'sha256': sha,
             'rewrites': log, 'external_body': spec.external_body, 'nloops': 0,
